@@ -162,6 +162,14 @@ static void emit_corpus(int mode) {
       if (mode == 0) body = std::string(1, (char)(i & 0xff)) + std::string(1, (char)(i >> 8)) + in + "." + b64u_enc(sig);
       else body = std::string(1, (char)(i & 0xff)) + std::string(1, (char)(i >> 8)) + std::string(1, (char)0) + std::string(1, (char)(h.size() & 0xff)) + std::string(1, (char)(h.size() >> 8)) + std::string(1, (char)(pay.size() & 0xff)) + std::string(1, (char)(pay.size() >> 8)) + h + pay + sig;
       std::string fn = std::string(d) + "/nul-" + std::to_string(i) + "-" + std::to_string(n++); FILE *f = fopen(fn.c_str(), "wb"); if (f) { fwrite(body.data(), 1, body.size(), f); fclose(f); } } }
+  // (raw target) a header or payload segment of 4k+1 characters - not decodable at all - in a token that is otherwise in order
+  // (signed over that very text by the configured key): must be rejected, not decoded up to the last complete group
+  if (mode == 0) for (size_t i = 0; i < CFGS.size(); i++) { const Cfg &c = *CFGS[i]; jwt_alg_t a = c.k ? cfg_alg(c) : JWT_ALG_NONE; static KeySpec dummy;
+    std::string h = std::string("{\"alg\":\"") + (a == JWT_ALG_NONE ? "none" : jwt_alg_str(a)) + "\"}", pay = "{\"iss\":\"issuer\",\"sub\":\"subject\",\"aud\":\"audience\"}";
+    while (h.size() % 3) h.insert(h.size() - 1, " "); while (pay.size() % 3) pay.insert(pay.size() - 1, " ");
+    int n = 0; for (int which = 0; which < 2; which++) { std::string in = b64u_enc(h) + (which == 0 ? "A" : "") + "." + b64u_enc(pay) + (which == 1 ? "A" : "");
+      std::string sig = c.k ? ref_sign(*c.k, a, in) : std::string(); std::string body = std::string(1, (char)(i & 0xff)) + std::string(1, (char)(i >> 8)) + in + "." + b64u_enc(sig);
+      std::string fn = std::string(d) + "/len4k1-" + std::to_string(i) + "-" + std::to_string(n++); FILE *f = fopen(fn.c_str(), "wb"); if (f) { fwrite(body.data(), 1, body.size(), f); fclose(f); } } }
   // a few long inputs (tens of kilobytes): valid long token, long garbage in each segment
   for (size_t i = 2; i < CFGS.size(); i += 21) {
     const Cfg &c = *CFGS[i]; jwt_alg_t a = c.k ? cfg_alg(c) : JWT_ALG_NONE; static KeySpec dummy;
